@@ -56,7 +56,8 @@ def sameIW (m : IW Float) (d : IWDump) : Bool := bitsL m.duration d.dur && bitsL
 def sameDump (a b : IWDump) : Bool := bitsL a.dur b.dur && bitsLL a.par b.par && bitsLL a.gv b.gv
 
 def runWset : P Verdict := do
-  let nv ← nat; let ns ← nat; let nops ← nat
+  let nv0 ← nat; let ns ← nat; let nops ← nat
+  let mut nv := nv0
   let d0 ← parseIW ns
   let mut iw : IW Float := IW.new nv ns
   let mut corr : Option String := check (sameIW iw d0) "default weights differ from 1/nvoices"
@@ -68,6 +69,17 @@ def runWset : P Verdict := do
   for _ in [0:nops] do
     let which ← next; let i ← nat; let w ← listOf flt; let kind ← next; let res ← next
     let d ← parseIW ns
+    if which == "reload" then
+      -- a voice set with `i` voices loaded into the condition in use: one weight per voice again, all equal
+      nv := i
+      iw := IW.new nv ns
+      if corr.isNone then corr := check (sameIW iw d) s!"weights after loading a set of {i} voices differ from the model (1/{i} each)"
+      if orc.isNone then
+        orc := check (d.dur.length == i && d.par.all (·.length == i) && d.gv.all (·.length == i))
+          s!"after loading a set of {i} voices the weight vectors do not have one weight per voice: duration {d.dur.length}, parameter {d.par.map (·.length)}, gv {d.gv.map (·.length)}"
+      classes := s!"reload:{i}" :: classes
+      prev := d
+      continue
     let op : IWOp Float := if which == "dur" then .dur w else if which == "par" then .par i w else .gv i w
     let (mres, iw') := match IWOp.apply eps iw op with
       | .ok s => ("ok", s)
